@@ -83,6 +83,15 @@ CLAIMS['C34'] = dict(
          'handed to the whole-program call. The whole-program crash of the pinned tree was replayed and repaired (fix: commit).',
     design='3/C34', note='Field-by-field fidelity for well-formed output and the behaviour of the addon process itself are not decided.')
 
+CLAIMS['C30'] = dict(
+    technique='static analysis: nullable-use analysis (tinyxml2 Attribute()/GetText() results vs. dereferencing sinks, null-test dominance on the structured CFG, one level of callee parameter summaries)',
+    text='Decides the "loading never crashes" clause for library configuration files: every nullable string read from the XML tree in '
+         'lib/library.cpp (118 sink uses) is null-tested (if/continue/return, condition variables, null-rejecting predicates, empty_if_null) before '
+         'it is converted to std::string, compared with str*, dereferenced or passed to a function that does so. The pinned tree had 8 unguarded uses; '
+         'four were replayed as segfault/abort with small user .cfg files and all were repaired (fix: commit). Conversion exceptions of the loader are '
+         'decided under C13. Thorough tier applies the rule to every other XML reader and lists what it finds.',
+    design='3/C30', note='The <valid> range semantics and the not-null/not-bool argument reporting are numeric behaviour and are not decided.')
+
 NOT_APPLICABLE = {
     'C01': 'soundness of inferred values vs. concrete executions of arbitrary programs; needs an executing/symbolic oracle, no structural necessary condition in valueflow.cpp',
     'C02': 'same as C01, for container sizes',
